@@ -663,7 +663,7 @@ def corpus_file(tier, seed, rnd):
     # an earlier fit + run and a refit inside the same auto_checkpoint context precede the measured run
     for j, c in enumerate(list(cfgs)):
         if j % 2 == 0 and c.get("every") is not None:
-            cfgs.append(dict(c, ctx="refit", seed=c["seed"] + 1000))
+            cfgs.append(dict(c, ctx="refit", seed=c["seed"] + 1000, explicit_none=(j % 4 == 0)))
     for c in cfgs:
         specs.append(_mk(k, "aspire_single", {"cfg": c})); k += 1
         wd = workdir("probe")
